@@ -99,6 +99,8 @@ def null_field_masks(
     """
     val = draw(strategy)
     size = val.shape[0]
+    if size == 0:
+        return val
     null_mask = draw(st.lists(st.booleans(), min_size=size, max_size=size))
     if unique:
         null_mask = _at_most_one_null(null_mask)
